@@ -4,7 +4,7 @@
    failure, a refused thread start. *)
 From Coq Require Import Lia.
 From Coq Require Import Permutation.
-From Torf Require Import Base Pipeline PipelineProofs FlowProofs ThreadProofs DeadlockProofs ConservationProofs ReaderDoneProofs DrainProofs TerminationProofs VerifyTrueProofs VerifyFalseProofs CompleteProofs ExceptionProofs StopProofs PipeExplore PipeExploreProofs PipeConfigs.
+From Torf Require Import Base Pipeline PipelineProofs FlowProofs ThreadProofs DeadlockProofs ConservationProofs ReaderDoneProofs DrainProofs TerminationProofs VerifyTrueProofs VerifyFalseProofs CompleteProofs ExceptionProofs CallbackRaiseProofs StopProofs PipeExplore PipeExploreProofs PipeConfigs.
 Open Scope Z_scope.
 
 (* the callback cancels from the second piece on (3 pieces): under every schedule the call returns
@@ -126,6 +126,25 @@ Theorem C04_exception_only_for_a_reason : forall c s e,
   reach c s -> s_result s = Some (ResRaise e) -> just c e.
 Proof. exact exception_only_for_a_reason. Qed.
 Print Assumptions C04_exception_only_for_a_reason.
+
+(* UNBOUNDED, "a callback's exception reaches the caller unchanged": if the user's callback raised during a call
+   (a call with done >= k was made to a callback that raises from k on) and the call has returned, it returned by
+   raising the callback's exception (-1) -- or, when the reader thread failed as well, that thread's read error,
+   which the join of the reader re-raises first.  Never True, False or anything else; under every schedule. *)
+Theorem C04_callback_exception_reaches_caller : forall c k,
+  cf_plan c = CbRaiseFrom k -> forall s r,
+  (1 <= cf_hashers c)%nat -> reach c s -> s_result s = Some r -> raised k s -> exists e, r = ResRaise e /\ ok_final c e.
+Proof. exact callback_exception_reaches_caller. Qed.
+Print Assumptions C04_callback_exception_reaches_caller.
+
+(* non-vacuity: a callback that raises at its second call: the run ends with ResRaise (-1) and such a call was made *)
+Example C04_callback_raise_example :
+  let s := auto_run 400 G_raise (init G_raise) in
+  reach G_raise s /\ s_result s = Some (ResRaise (-1)) /\ cf_plan G_raise = CbRaiseFrom 2 /\ raised 2 s.
+Proof.
+  split; [apply auto_run_reach; constructor|]. split; [vm_compute; reflexivity|]. split; [reflexivity|].
+  exists 2, 1, None. split; [vm_compute; right; left; reflexivity|lia].
+Qed.
 
 (* hashing readable content without a callback raises nothing but an error of the reader (iterator failure, ENOMEM) *)
 Theorem C04_generate_raises_only_reader_errors : forall c s e hs,
